@@ -115,7 +115,7 @@ func VH_H_CreatePromise() {
 		h, _ := vx.GinBound("Header", 0).(*createPromiseHeader)
 		q := k.req.CreatePromise
 		vx.Assert(b != nil && h != nil, "C20:http-kernel-called-only-with-a-bound-request")
-		vx.Assert(q.Id == b.Id && q.Timeout == b.Timeout && q.Strict == h.Strict && vx.MapEq(q.Tags, b.Tags) && vhValueEq(q.Param, b.Param) && vhIkeyEq(q.IdempotencyKey, h.IdempotencyKey), "C20:http-request-fields-copied")
+		vx.Assert(q.Id == b.Id && vx.SameDatum(q.Timeout, b.Timeout) && q.Strict == h.Strict && vx.MapEq(q.Tags, b.Tags) && vhValueEq(q.Param, b.Param) && vhIkeyEq(q.IdempotencyKey, h.IdempotencyKey), "C20:http-request-fields-copied")
 		if k.err == nil && k.res.CreatePromise.Status.IsSuccessful() {
 			p, ok := vx.HttpBody(0).(*promise.Promise)
 			vx.Assert(ok && p == k.res.CreatePromise.Promise, "C20:http-reply-is-the-kernel-promise")
@@ -160,7 +160,7 @@ func VH_H_CreateCallback() {
 		b, _ := vx.GinBound("JSON", 0).(*createCallbackBody)
 		q := k.req.CreateCallback
 		vx.Assert(b != nil, "C20:http-kernel-called-only-with-a-bound-request")
-		vx.Assert(q.PromiseId == b.PromiseId && q.RootPromiseId == b.RootPromiseId && q.Timeout == b.Timeout && vx.BytesEq(q.Recv, b.Recv), "C20:http-request-fields-copied")
+		vx.Assert(q.PromiseId == b.PromiseId && q.RootPromiseId == b.RootPromiseId && vx.SameDatum(q.Timeout, b.Timeout) && vx.BytesEq(q.Recv, b.Recv), "C20:http-request-fields-copied")
 	}
 }
 func VH_H_CreateSubscription() {
@@ -171,7 +171,7 @@ func VH_H_CreateSubscription() {
 		b, _ := vx.GinBound("JSON", 0).(*createSubscriptionBody)
 		q := k.req.CreateSubscription
 		vx.Assert(b != nil, "C20:http-kernel-called-only-with-a-bound-request")
-		vx.Assert(q.Id == b.Id && q.PromiseId == b.PromiseId && q.Timeout == b.Timeout && vx.BytesEq(q.Recv, b.Recv), "C20:http-request-fields-copied")
+		vx.Assert(q.Id == b.Id && q.PromiseId == b.PromiseId && vx.SameDatum(q.Timeout, b.Timeout) && vx.BytesEq(q.Recv, b.Recv), "C20:http-request-fields-copied")
 	}
 }
 func VH_H_ReadSchedule() {
@@ -196,7 +196,7 @@ func VH_H_CreateSchedule() {
 		h, _ := vx.GinBound("Header", 0).(*createScheduleHeader)
 		q := k.req.CreateSchedule
 		vx.Assert(b != nil && h != nil, "C20:http-kernel-called-only-with-a-bound-request")
-		vx.Assert(q.Id == b.Id && q.Description == b.Description && q.Cron == b.Cron && vx.MapEq(q.Tags, b.Tags) && q.PromiseId == b.PromiseId && q.PromiseTimeout == b.PromiseTimeout &&
+		vx.Assert(q.Id == b.Id && q.Description == b.Description && q.Cron == b.Cron && vx.MapEq(q.Tags, b.Tags) && q.PromiseId == b.PromiseId && vx.SameDatum(q.PromiseTimeout, b.PromiseTimeout) &&
 			vhValueEq(q.PromiseParam, b.PromiseParam) && vx.MapEq(q.PromiseTags, b.PromiseTags) && vhIkeyEq(q.IdempotencyKey, h.IdempotencyKey), "C20:http-request-fields-copied")
 		if k.err == nil && k.res.CreateSchedule.Status.IsSuccessful() {
 			p, ok := vx.HttpBody(0).(*schedule.Schedule)
@@ -255,6 +255,17 @@ func VH_H_ClaimTask() {
 	m := vhMethod()
 	s.claimTask(vx.GinContext(m))
 	vhCheck(k, t_api.ClaimTask)
+	if k.calls == 1 && k.err == nil && k.res.ClaimTask.Status == t_api.StatusCreated && vx.HttpReplies() == 1 {
+		// the claim payload lists exactly the promises the kernel returned: the root always, the leaf for a resume
+		ms := k.res.ClaimTask.Task.Mesg
+		body, _ := vx.HttpBody(0).(gin.H)
+		ps, _ := body["promises"].(gin.H)
+		_, hasRoot := ps["root"]
+		_, hasLeaf := ps["leaf"]
+		vx.Assert(body != nil && ps != nil && hasRoot && hasLeaf == (string(ms.Type) == "resume") && len(ps) == vhB(hasLeaf)+1, "C15:claim-payload-lists-the-kernels-promises")
+		root, _ := ps["root"].(gin.H)
+		vx.Assert(root != nil && root["id"] == ms.Root && root["href"] == k.res.ClaimTask.RootPromiseHref, "C15:claim-payload-root")
+	}
 	if k.calls == 1 {
 		q := k.req.ClaimTask
 		if m == "GET" {
@@ -298,4 +309,11 @@ func VH_H_HeartbeatTasks() {
 			vx.Assert(b != nil && q.ProcessId == b.ProcessId, "C20:http-request-fields-copied")
 		}
 	}
+}
+
+func vhB(b bool) int {
+	if b {
+		return 1
+	}
+	return 0
 }
